@@ -26,7 +26,7 @@ one production per precedence level, `left : L`, `right : L - 1` (left associati
 Deviations of the code from the documented table that `Derives` has to admit (each with the Python line) are listed in
 ParseWN0.lean (DEVIATION 1–5); `C02.binary_bang_witness` / `reserved_word_column_witness` are evaluated witnesses on the model.
 * `C02.derives_unique_logic`, `derives_unique_keyword`, `derives_unique_compute` (+ `logic_skeleton_exists` / `_derives`, `keyword_…`, `compute_…`,
-  `parse_unique_over_operands`):
+  `parse_unique_over_operands`, `parse_tree_well_nested`, `parse_compute_tree_well_nested`):
   uniqueness for the operator layers — once it is fixed which token runs are the operands (level 9 resp. elements), the documented
   levels leave exactly one tree (`OPG.unique`, MsqProofs/Lemmas/OpGrammar.lean: an operator grammar with prefix and left-associative
   binary levels over opaque operands is unambiguous).
@@ -206,6 +206,28 @@ theorem keyword_skeleton_exists (d : Gen.D) (L : Nat) (ts : List Tok) (e : Expr)
     ∃ items, flatI items = ts ∧ KD d items e ∧ ∀ u a, OPG.Item.atom (u, a) ∈ items → AtomK d u a := skelK_of h hL
 theorem derives_unique_keyword (d : Gen.D) (items : List It) (e e' : Expr) (h : KD d items e) (h' : KD d items e') : e = e' :=
   h.unique h'
+
+/-- **the returned tree is THE well-nested operator tree over its operands** (the tree-level form, `OPG.Tr.WN`: at every binary
+node of level k the left operand has level ≤ k and the right operand level < k, under NOT the operand has level ≤ 11; an operand —
+whatever it is: a bracket group, a keyword predicate … — has level 0): the tree `pOr` returns is the image of an operator tree `x`
+over operands of the keyword level that is well nested w.r.t. the documented levels (OR 14, XOR 13, AND 12, NOT 11, comparison 10),
+whose items are exactly the consumed tokens, and every well-nested tree with the same items is `x` -/
+theorem parse_tree_well_nested (d : Gen.D) (f : Nat) (ts : List Tok) (e : Expr) (rest : List Tok) (h : pOr d f ts = .ok (e, rest)) :
+    ∃ (x : OPG.Tr Atom Tok), ts = flatI x.flat ++ rest ∧ embL x = e ∧ x.WN (logicSig d) ∧
+      (∀ u a, OPG.Item.atom (u, a) ∈ x.flat → Derives d 9 u a) ∧ ∀ y : OPG.Tr Atom Tok, y.WN (logicSig d) → y.flat = x.flat → y = x := by
+  obtain ⟨u, hu, hd⟩ := parse_derives d f ts e rest h
+  obtain ⟨items, x, hf, hg, he, ha⟩ := skelL_of hd
+  have hx := hg.flat_eq
+  exact ⟨x, by rw [hx, hf]; exact hu, he, hg.wn, by rw [hx]; exact ha, fun y hy hyf => OPG.WN_unique hy hg.wn hyf⟩
+/-- the same for `_parse_compute_expression`: operands are elements, levels are the table's (prefix signs 1, binary 2 … 8) — this is
+`C02.precedence_tree_unique` for the run of the parser itself, prefix operators included -/
+theorem parse_compute_tree_well_nested (d : Gen.D) (f : Nat) (ts : List Tok) (e : Expr) (rest : List Tok) (h : pCompute d f ts = .ok (e, rest)) :
+    ∃ (x : OPG.Tr Atom Tok), ts = flatI x.flat ++ rest ∧ embC x = e ∧ x.WN (computeSig d) ∧
+      (∀ u a, OPG.Item.atom (u, a) ∈ x.flat → Derives d 0 u a) ∧ ∀ y : OPG.Tr Atom Tok, y.WN (computeSig d) → y.flat = x.flat → y = x := by
+  obtain ⟨u, hu, hd⟩ := parse_derives_compute d f ts e rest h
+  obtain ⟨items, x, hf, hg, he, ha⟩ := skelC_of hd (Nat.le_refl _)
+  have hx := hg.flat_eq
+  exact ⟨x, by rw [hx, hf]; exact hu, he, hg.wn, by rw [hx]; exact ha, fun y hy hyf => OPG.WN_unique hy hg.wn hyf⟩
 
 /-- for the parser: what `pOr` returns is the ONLY tree over the operands of its logical skeleton -/
 theorem parse_unique_over_operands (d : Gen.D) (f : Nat) (ts : List Tok) (e : Expr) (rest : List Tok) (h : pOr d f ts = .ok (e, rest)) :
